@@ -278,12 +278,14 @@ func checkC06(c *core.Ctx) {
 	}
 	iohelpCheckedStrings(c, gr.p, "R2")
 	iohelpStaleReads(c, gr.p, "R3")
+	iohelpLatchRules(c, gr.p, "R3l", "R3a", "R3d", "-")
+	dropRules(c, "-")
 	iohelpDrain(c, gr.p, "R5")
 	gr.sample(2)
 }
 
 func checkC07(c *core.Ctx) {
-	c.Explainf("C07 (decided clauses). R1: the checked decoder (UnmarshalBebop) of every explored shape reaches no unchecked helper (MustReadStringBytes*, MustMake*FromBytes); R2: every allocation sized by a count read from the input is preceded by a check relating that count to the remaining input — byte path sites and stream path sites are enumerated; R3: every count-bounded loop of the checked byte decoder contains, per iteration, a length check or a self-checking read, so iterations are bounded by len(buf); R4: no panic() is reachable from the iohelp functions the checked decoders call. Everything C06/R1 reports is also a C07 hazard and is reported there, not twice. NOT decided: actual memory/time.")
+	c.Explainf("C07 (decided clauses). R1: the checked decoder (UnmarshalBebop) of every explored shape reaches no unchecked helper (MustReadStringBytes*, MustMake*FromBytes); R2: every allocation sized by a count read from the input is preceded by a check relating that count to the remaining input — byte path sites and stream path sites are enumerated; R3: every count-bounded loop of the checked byte decoder contains, per iteration, a length check or a self-checking read, so iterations are bounded by len(buf); R4: no panic() is reachable from the iohelp functions the checked decoders call. R0: every read of the checked byte decoder is covered by a length check (the same analysis as C06/R1: an uncovered read is a panic on hostile input) and the checked string readers guard their slices; R3d: Drain terminates on any error. NOT decided: actual memory/time.")
 	gr := startGen(c)
 	if gr == nil {
 		return
@@ -293,6 +295,10 @@ func checkC07(c *core.Ctx) {
 		if mf.Present {
 			n := 0
 			for _, f := range mf.Fails {
+				if f.Rule == "check" {
+					// an uncovered read is a panic on hostile input, not only on truncated input
+					c.Check("R0", failKey(rf, mBR, f), anchorPos(gr.p, rf.Spec.Kind, mBR), false, f.Msg+" — "+rf.where(f.Pos))
+				}
 				if f.Rule == "unchecked" {
 					n++
 					c.Check("R1", failKey(rf, mBR, f), anchorPos(gr.p, rf.Spec.Kind, mBR), false, f.Msg+" — "+rf.where(f.Pos))
@@ -321,6 +327,8 @@ func checkC07(c *core.Ctx) {
 		}
 	}
 	iohelpNoPanic(c, gr.p, "R4")
+	iohelpCheckedStrings(c, gr.p, "R0s")
+	iohelpDrain(c, gr.p, "R3d")
 	gr.sample(2)
 }
 
@@ -422,6 +430,8 @@ func (gr *genRun) precededByBulkCheck(rf *RecFacts, fd *ast.FuncDecl, loop ast.N
 
 func init() { register("C09", checkC09) }
 
+var lnCounter = regexp.MustCompile(`\bln[0-9]+\b`)
+
 var bbpField = regexp.MustCompile(`bbp\.([A-Za-z_])`)
 
 func optionNeutral(s string) string {
@@ -468,10 +478,51 @@ func checkC09(c *core.Ctx) {
 			d, pos, same := wire.Diff(b.Items, a.Items)
 			c.Check("R4", "MustUnmarshalBebop vs UnmarshalBebop "+bodyKeyAll(rf), anchorPos(gr.p, rf.Spec.Kind, mBRu), same, d+" — "+rf.where(pos))
 		}
+		// R4b: under every option set both byte decoders keep the cursor in step
+		for _, m := range []string{mBR, mBRu} {
+			if mf := rf.M[m]; mf.Present {
+				for _, f := range mf.Fails {
+					if f.Rule == "cursor" {
+						c.Check("R4", failKey(rf, m, f)+" options="+rf.GF.Opts.String(), anchorPos(gr.p, rf.Spec.Kind, m), false, f.Msg+" — "+rf.where(f.Pos))
+					}
+				}
+			}
+		}
 		// R3: unsafe methods present iff the option is on
 		has := rf.M[mBRu].Present
 		c.Check("R3", "MustUnmarshalBebop emitted iff GenerateUnsafeMethods "+kindName(rf.Spec.Kind), anchorPos(gr.p, rf.Spec.Kind, mBRu), has == rf.GF.Opts.Unsafe,
 			fmt.Sprintf("present=%v under options %s — %s", has, rf.GF.Opts, rf.where(token.NoPos)))
+	}
+	// R3b: the text of every method other than the Must* pair is identical
+	// whether or not GenerateUnsafeMethods is set
+	type tkey struct {
+		batch        int
+		name, method string
+		rest         string // the other four options
+	}
+	texts := map[tkey]string{}
+	for _, rf := range gr.ga.Recs {
+		o := rf.GF.Opts
+		rest := fmt.Sprintf("%v%v%v%v%v", o.SharedMem, o.Tags, o.Private, o.PtrRecv, o.Combined)
+		for _, m := range []string{mBW, mSW, mSZ, mBR, mSR} {
+			mf := rf.M[m]
+			if !mf.Present {
+				continue
+			}
+			// the shared counter behind ln<N> advances when Must* methods are emitted too
+			txt := lnCounter.ReplaceAllString(rf.GF.Snippet(mf.Decl), "ln#")
+			k := tkey{rf.GF.Batch, rf.Spec.Name, m, rest}
+			if prev, ok := texts[k]; ok {
+				same := prev == txt
+				msg := ""
+				if !same {
+					msg = "the emitted text of " + m + " changes with GenerateUnsafeMethods, which must only add MustUnmarshalBebop/MustMake* — " + rf.where(mf.Decl.Pos())
+				}
+				c.Check("R3", "text of "+m+" independent of GenerateUnsafeMethods "+bodyKeyAll(rf), anchorPos(gr.p, rf.Spec.Kind, m), same, msg)
+			} else {
+				texts[k] = txt
+			}
+		}
 	}
 	optionReadSites(c, gr)
 	gr.sample(2)
